@@ -3,6 +3,7 @@
 package secretstore
 
 import (
+	"github.com/ipfs/go-datastore"
 	"bytes"
 	"context"
 	"fmt"
@@ -28,6 +29,27 @@ type vStore struct {
 
 func newVStoreOn(name string, d *verifkit.RecDS, window, refs int) *vStore {
 	ss, err := newSecretStore(d, &NewSecretStoreOptions{PreComputedKeysCount: window, PrecomputeOutOfStoreGroupRefsCount: refs})
+	if err != nil {
+		panic(err)
+	}
+	return &vStore{name: name, ss: ss, ds: d, window: window, refs: refs}
+}
+
+// plainDS hides everything but the basic datastore interface (no batching feature at all).
+type plainDS struct{ datastore.Datastore }
+
+// newVStoreBackend creates a device whose secret store sits on a backend of the given kind: "batching" (the default),
+// "batch-unsupported" (Batch() answers ErrBatchUnsupported) or "no-batching-feature" (a plain datastore.Datastore).
+func newVStoreBackend(name, kind string, window, refs int) *vStore {
+	d := verifkit.NewRecDS()
+	var root datastore.Datastore = d
+	switch kind {
+	case "batch-unsupported":
+		d.NoBatch = true
+	case "no-batching-feature":
+		root = plainDS{d}
+	}
+	ss, err := newSecretStore(root, &NewSecretStoreOptions{PreComputedKeysCount: window, PrecomputeOutOfStoreGroupRefsCount: refs})
 	if err != nil {
 		panic(err)
 	}
